@@ -115,7 +115,7 @@ theorem pfData_acc (sd : Stream → Nat → Nat → Stream × List String × Boo
   split at h <;> simp_all
 
 theorem popFrameC_acc (sd : Stream → Nat → Nat → Stream × List String × Bool)
-    (hsd : ∀ a len m, ∃ b w f, sd a len m = (b, w, f) ∧ Quiet a b) (n m : Nat) (hw : P.write) (hc : ∀ k, P.cut k) (h : Tr P s0 s) :
+    (hsd : ∀ a len m, ∃ b w f, sd a len m = (b, w, f) ∧ Quiet a b) (n m : Nat) (hw : P.write) (hc : CutAll P) (h : Tr P s0 s) :
     Tr P s0 (popFrameC sd n s m).1 := by
   induction n generalizing s with
   | zero => rw [popFrameC_zero]; exact h
@@ -154,16 +154,16 @@ theorem popFrameC_acc (sd : Stream → Nat → Nat → Stream × List String × 
         clear hd
         fid_grind
 
-@[grind ←] theorem popFrame_acc (n m : Nat) (hw : P.write) (hc : ∀ k, P.cut k) (h : Tr P s0 s) :
+@[grind ←] theorem popFrame_acc (n m : Nat) (hw : P.write) (hc : CutAll P) (h : Tr P s0 s) :
     Tr P s0 (Streams.popFrame n s m).1 := by
   rw [popFrameC.eq]; exact popFrameC_acc _ sendData_quiet' n m hw hc h
 
-@[grind ←] theorem prioBufferPendingLoop_acc (n : Nat) (w : Writer) (hw : P.write) (hc : ∀ k, P.cut k) (h : Tr P s0 s) :
+@[grind ←] theorem prioBufferPendingLoop_acc (n : Nat) (w : Writer) (hw : P.write) (hc : CutAll P) (h : Tr P s0 s) :
     Tr P s0 (Streams.prioBufferPendingLoop n s w).1 := by
   induction n generalizing s w with
   | zero => unfold Streams.prioBufferPendingLoop; fid_grind
   | succ n ih => unfold Streams.prioBufferPendingLoop; fid_grind
-@[grind ←] theorem prioBufferPending_acc (n : Nat) (w : Writer) (hw : P.write) (hc : ∀ k, P.cut k) (h : Tr P s0 s) :
+@[grind ←] theorem prioBufferPending_acc (n : Nat) (w : Writer) (hw : P.write) (hc : CutAll P) (h : Tr P s0 s) :
     Tr P s0 (Streams.prioBufferPending n s w).1 := by
   unfold Streams.prioBufferPending; fid_grind
 
@@ -329,7 +329,7 @@ theorem tryForEachAcc_acc (f : Nat → Streams → Nat → Streams × Nat × Opt
   induction n generalizing s i len acc with
   | zero => unfold Streams.tryForEachAcc; exact h
   | succ n ih => unfold Streams.tryForEachAcc; fid_grind
-@[grind ←] theorem sendApplyRemoteSettings_acc (a b c : Option Nat) (hc : ∀ k, P.cut k) (h : Tr P s0 s) :
+@[grind ←] theorem sendApplyRemoteSettings_acc (a b c : Option Nat) (hc : CutAll P) (h : Tr P s0 s) :
     Tr P s0 (s.sendApplyRemoteSettings a b c).1 := by
   unfold Streams.sendApplyRemoteSettings
   have h1 := @tryForEachAcc_acc P s0
